@@ -1057,7 +1057,7 @@ class ArgumentParser(ParserDeprecations, ActionsContainer, ArgumentLinking, argp
                 cfg_file = self._load_config_parser_mode(default_config_file.get_content(), key=key)
                 cfg = self.merge_config(cfg_file, cfg)
                 try:
-                    with _ActionPrintConfig.skip_print_config():
+                    with _ActionPrintConfig.skip_print_config(), _ActionSubCommands.not_single_subcommand():
                         cfg = self._parse_common(
                             cfg=cfg,
                             env=False,
